@@ -7,6 +7,7 @@ import (
 	"encoding/json"
 	"errors"
 	"fmt"
+	"runtime"
 	"testing"
 	"time"
 
@@ -31,7 +32,7 @@ type c08WPol struct {
 
 type c08WCall struct {
 	Dt int64 `json:"dt"`
-	H  int   `json:"h"`  // 0 handler returns nil, 1 returns an error, 2 panics
+	H  int   `json:"h"`  // 0 handler returns nil, 1 returns an error, 2 panics, 3 panic(nil), 4 runtime.Goexit
 	W  int   `json:"w"`  // which of the wrappers created from the one policy object the call goes through
 	Cx int   `json:"cx"` // context of the call: 0 live, 1 cancelled before the call, 2 cancelled by the time the handler returns, 3 deadline exceeded
 }
@@ -112,16 +113,21 @@ func c08WRun(in c08WIn) (obs c08WObs) {
 				return errBackend
 			case 2:
 				panic("handler panic")
+			case 3:
+				var nothing interface{}
+				panic(nothing)
+			case 4:
+				runtime.Goexit()
 			}
 			return nil
 		})
-		code := int64(0)
-		func() {
-			defer func() {
-				if r := recover(); r != nil {
-					code = 3
-				}
-			}()
+		// the call runs in a goroutine of its own (the handler may end it with runtime.Goexit);
+		// code 3 = the wrapped function did not return (panic, panic(nil) or Goexit passed through)
+		code := int64(3)
+		fin := make(chan struct{})
+		go func() {
+			defer close(fin)
+			defer func() { _ = recover() }()
 			err := h(callCtx)
 			switch {
 			case err == ErrShortCircuited:
@@ -132,6 +138,7 @@ func c08WRun(in c08WIn) (obs c08WObs) {
 				code = 2
 			}
 		}()
+		<-fin
 		done()
 		st, id, total := w.CircuitBreaker.VerifC08Peek()
 		obs.Calls = append(obs.Calls, [5]int64{code, runs, int64(st), int64(id), int64(total)})
@@ -194,7 +201,7 @@ func c08WGen(r *vfRand, adv bool) c08WIn {
 			}
 		}
 		if r.Chance(pfc, 100) {
-			c.H = 1 + r.Intn(2)
+			c.H = 1 + r.Intn(4)
 		}
 		in.Calls = append(in.Calls, c)
 	}
